@@ -43,6 +43,6 @@ for prop, d in zip(args[0::2], args[1::2]):
             rec["checks"][chk] = dict(exit=q.returncode, violations=len(vio), keys=keys[:4], summary=[l for l in lines if l.startswith(chk + " quick")][:1])
     rec["wall"] = round(time.time() - t)
     subprocess.run(["git", "-C", "/repo", "worktree", "remove", "--force", w], capture_output=True)
-    with open("/tmp/mut/results.jsonl", "a") as f:
+    with open(os.environ.get("EVAL_OUT", "/tmp/mut/results.jsonl"), "a") as f:
         f.write(json.dumps(rec) + "\n")
     print(name, "clean", rec.get("demo_clean"), "mut", rec.get("demo_mut"), {k: (v["exit"], v["violations"]) for k, v in rec.get("checks", {}).items()}, flush=True)
